@@ -748,6 +748,7 @@ class Hist:
         self.viol = []  # (key, what, detail)
         self.n_eval = 0
         self.kinds = set()
+        self.unmodelled = False
 
     def lines(self, x):
         return ''.join(f'{n} = {txt(v)}\n' for n, v in zip(self.sess['names'], x))
@@ -760,6 +761,37 @@ class Hist:
             if b is None or frac(f) >= frac(b[1]):
                 b = (x, f)
         return b
+
+    def design_f(self, x):
+        """exact rational value of the designed log likelihood at x ON THE ESTIMATION DATA"""
+        sess = self.sess
+        rows = sess.get('rows', 2)
+        tot = Fraction(0)
+        for k, (xv, t) in enumerate(zip(x, sess['targets'])):
+            w = sess['weights'][k]
+            W = sum(Fraction(w[r % len(w)]) for r in range(rows))
+            tot -= W * (Fraction(unhex(xv)) - Fraction(unhex(t))) ** 2
+        if sess.get('div', True):
+            w = sess['weights'][0]
+            tot -= sum(1 / Fraction(w[r % len(w)]) for r in range(rows))
+        return tot
+
+    def check_data(self, x, f, where):
+        """the evaluation was made on the estimation data: the double returned by the engine equals the
+        designed function up to 1e-9 relative (the function is a sum of at most 3*rows+rows same-sign
+        products of doubles: its floating-point evaluation is within ~1e-14 relative of the exact value;
+        another data set changes it by O(1) relative)"""
+        try:
+            if not all(math.isfinite(unhex(v)) for v in x) or frac(f) is None or not math.isfinite(unhex(f)):
+                return
+            d = self.design_f(x)
+        except Exception:  # noqa
+            return
+        if abs(frac(f) - d) > Fraction(1, 10 ** 9) * max(1, abs(d)):
+            self.viol.append(('C15/iter/evaluated-on-other-data',
+                              'outside the bootstrap loop the likelihood was evaluated (and possibly saved) on data other '
+                              'than the estimation data',
+                              {'where': where, 'x': [unhex(v) for v in x], 'f_returned': unhex(f), 'f_on_estimation_data': float(d)}))
 
     def check_values(self, x, where):
         """assumptions A2/A3 on the actual doubles"""
@@ -811,6 +843,8 @@ class Hist:
             self.check_values(x, label)
             if len(x) != n:
                 self.viol.append(('C15/iter/wrong-length-accepted', 'a vector of the wrong length was evaluated', label))
+            if g and not self.inboot and len(x) == n:
+                self.check_data(x, f, label)
             if g and not self.inboot and self.sess['save'] and len(x) == n:
                 self.counted.append((x, f))
                 self.kinds.add('counted')
@@ -882,6 +916,10 @@ class Hist:
                                            'first_evaluation': None if first is None else [unhex(v) for v in first]}))
         elif kind == 'load':
             self.add('Observe', None, label)
+        elif kind == 'delete_file':
+            # the user removes the file (oracle-only sessions: this operation is not in the model)
+            self.unmodelled = True
+            self.prev_file = None
         else:
             raise RuntimeError(f'unknown op {kind}')
 
@@ -909,7 +947,7 @@ def dy(rng, lo=-4, hi=4, bits=3):
             return v
 
 
-def gen_session(rng, long=False):
+def gen_session(rng, long=False, with_delete=False):
     k = rng.choice([1, 2, 2, 3])
     names = sorted(rng.sample(NAME_POOL, k))
     targets = [dy(rng) for _ in range(k)]
@@ -954,6 +992,8 @@ def gen_session(rng, long=False):
                 last = x
             ops.append({'op': 'eval', 'x': [fhex(v) for v in x]})
         elif r < 0.74:
+            if with_delete and rng.random() < 0.6:
+                ops.append({'op': 'delete_file'})
             ops.append({'op': 'estimate'})
             last = None
         elif r < 0.82:
@@ -1292,8 +1332,9 @@ def stream_crash(ctx):
                 content = ''.join(f'{nm} = {txt(v)}\n' for nm, v in zip(sc['names'], x))
                 L = len(content)
                 points = [('byte', b) for b in range(0, L + 1)] + [('before_replace',), ('after_replace',)]
-                if ctx.quick and len(points) > 14:
-                    keep = {0, 1, L, L - 1} | set(rng.sample(range(2, L - 1), 6))
+                if ctx.quick and len(points) > 14 and '_corpus' not in sc:
+                    ends = {i + 1 for i, ch in enumerate(content) if ch == '\n'}
+                    keep = {0, 1, L, L - 1} | ends | {e + 2 for e in ends if e + 2 < L} | set(rng.sample(range(2, L - 1), 4))
                     points = [p for p in points if p[0] != 'byte' or p[1] in keep]
                 for p in points:
                     s2 = dict(sc)
@@ -1403,7 +1444,8 @@ def gen_all(ctx):
 def search_after_break(ctx):
     """something no longer checks and no oracle fired yet: more oracle evaluations"""
     rng = ctx.sub_rng('search')
-    sessions = load_corpus('iter') + [gen_session(rng, long=(i % 3 == 0)) for i in range(ctx.n(150, 1500))]
+    sessions = load_corpus('iter') + [gen_session(rng, long=(i % 3 == 0), with_delete=(i % 2 == 0))
+                                      for i in range(ctx.n(150, 1500))]
     B = max(1, (len(sessions) + 15) // 16)
     batches = [sessions[i:i + B] for i in range(0, len(sessions), B)]
     results = ctx.impl_parallel('c15_iter.py', [{'mode': 'iter', 'sessions': b} for b in batches], timeout=1500)
